@@ -31,6 +31,12 @@ Inductive bstep :=
 | BCreate (a b : val)
 | BUpdate (id : Z) (c : nat) (v : val)     (* o = Cls.get(id); o.<c> = v *)
 | BDelete (id : Z)                         (* Cls.get(id).destroySelf() *)
+| BWrite (id : Z) (c : nat) (v : val)      (* p.<c> = v on an instance p of row id that was loaded BEFORE the call (through the
+                                              hub, i.e. through the connection then bound): its UPDATE goes through the hub, hence
+                                              through the transaction; nothing is fetched, nothing enters the transaction's cache *)
+| BErase (id : Z)                          (* p.destroySelf() on such an instance: DELETE through the transaction; the
+                                              transaction's cache entry of that id, if any, is purged *)
+| BDeleteMany (id : Z)                     (* Cls.deleteMany(Cls.q.id == id): a class-level DELETE, no instance involved *)
 | BFail (n : nat).                         (* raise the n-th exception object of the program *)
 
 Inductive hexc :=
@@ -146,6 +152,15 @@ Definition tick (g : gst) (t : nat) : gst :=
           if negb (get_ok v cached id) then exit_raise g t old is_thr XNotFound k
           else if locked_by_other g t then exit_raise g t old is_thr XLocked k
           else go (tbl_delete id v) (remove_id id cached) created
+      | BWrite id c x =>
+          if locked_by_other g t then exit_raise g t old is_thr XLocked k
+          else go (tbl_update id c x v) cached created
+      | BErase id =>
+          if locked_by_other g t then exit_raise g t old is_thr XLocked k
+          else go (tbl_delete id v) (remove_id id cached) created
+      | BDeleteMany id =>
+          if locked_by_other g t then exit_raise g t old is_thr XLocked k
+          else go (tbl_delete id v) cached created
       end
   end.
 
@@ -166,6 +181,9 @@ Fixpoint body_run (v : table) (cached : list Z) (steps : list bstep) (k : nat) (
   | BDelete id :: rest =>
       if get_ok v cached id then body_run (tbl_delete id v) (remove_id id cached) rest (S k) created
       else (Raised XNotFound k, v)
+  | BWrite id c x :: rest => body_run (tbl_update id c x v) cached rest (S k) created
+  | BErase id :: rest => body_run (tbl_delete id v) (remove_id id cached) rest (S k) created
+  | BDeleteMany id :: rest => body_run (tbl_delete id v) cached rest (S k) created
   end.
 Definition body_result (v : table) (body : list bstep) : result := fst (body_run v [] body 0 []).
 Definition body_table (v : table) (body : list bstep) : table := snd (body_run v [] body 0 []).
